@@ -92,7 +92,7 @@ class FaultWrapper:
         return out
 
 
-def _build(ds, torch, kind, N, freq, start, shapes, seed, dtype="float32", qr=False, extra=None):
+def _build(ds, torch, kind, N, freq, start, shapes, seed, dtype="float32", qr=False, extra=None, group_N=None):
     from .. import gen as G
 
     cfg = {
@@ -103,7 +103,13 @@ def _build(ds, torch, kind, N, freq, start, shapes, seed, dtype="float32", qr=Fa
     }
     cfg.update(extra or {})
     params = G.make_params(torch, shapes, getattr(torch, dtype), tgen(*seed, "init"))
-    opt = G.build_optimizer(ds, torch, cfg, params)
+    groups = None
+    if group_N is not None:
+        # two param groups, the second overriding preconditioner_config with its own tolerance
+        cut = len(shapes) // 2
+        pc2 = dict(cfg["precond"], num_tolerated=group_N[1])
+        groups = [{"params": list(range(0, cut)), "overrides": {}}, {"params": list(range(cut, len(shapes))), "overrides": {"precond": pc2}}]
+    opt = G.build_optimizer(ds, torch, cfg, params, groups)
     return cfg, params, opt
 
 
@@ -112,7 +118,7 @@ def _roots(opt, p, kind):
     return list(sh.inv_factor_matrices if kind == "shampoo" else sh.factor_matrices_eigenvectors)
 
 
-def drive(ds, torch, kind, N, freq, start, shapes, presence, plans, seed, counters, *, qr=False, grad_poison=None, dtype="float32", extra=None, zero_grad=(), expect_store_overflow=False):
+def drive(ds, torch, kind, N, freq, start, shapes, presence, plans, seed, counters, *, qr=False, grad_poison=None, dtype="float32", extra=None, zero_grad=(), expect_store_overflow=False, group_N=None):
     """run one history under the fault wrapper; raises Violation.  presence[t][j]; plans[t] = {(block, factor): action}."""
     import distributed_shampoo.utils.shampoo_preconditioner_list as pl
 
@@ -123,7 +129,11 @@ def drive(ds, torch, kind, N, freq, start, shapes, presence, plans, seed, counte
     for j, s in enumerate(shapes):
         for f, n in enumerate(s):
             size_to_slot[n] = (j, f)
-    cfg, params, opt = _build(ds, torch, kind, N, freq, start, shapes, seed, dtype=dtype, qr=qr, extra=extra)
+    cfg, params, opt = _build(ds, torch, kind, N if group_N is None else group_N[0], freq, start, shapes, seed, dtype=dtype, qr=qr, extra=extra, group_N=group_N)
+    cut = len(shapes) // 2
+    gof = [0 if (group_N is None or j < cut) else 1 for j in range(len(shapes))]
+    Nof = [N if group_N is None else group_N[gof[j]] for j in range(len(shapes))]
+    t_groups = [0, 0]
     wrap = FaultWrapper(getattr(pl, name), size_to_slot)
     setattr(pl, name, wrap)
     try:
@@ -139,7 +149,16 @@ def drive(ds, torch, kind, N, freq, start, shapes, presence, plans, seed, counte
             active = [j for j in range(len(params)) if presence[t][j]]
             if active:
                 t_group += 1
-            refresh = bool(active) and refresh_due(t_group, start, freq)
+            for g_ in (0, 1):
+                if any(gof[j] == g_ for j in active):
+                    t_groups[g_] += 1
+            if group_N is not None:
+                # refresh is decided per group; the plan of a step is delivered to whichever groups refresh
+                refresh_g = [any(gof[j] == g_ for j in active) and refresh_due(t_groups[g_], start, freq) for g_ in (0, 1)]
+                refresh = any(refresh_g)
+                active = [j for j in active if refresh_g[gof[j]]] if refresh else active
+            else:
+                refresh = bool(active) and refresh_due(t_group, start, freq)
             wrap.plan = dict(plans.get(t, {})) if refresh else {}
             wrap.calls = []
             before_roots = {j: [r.detach().clone() for r in _roots(opt, params[j], kind)] for j in range(len(params))}
@@ -163,7 +182,7 @@ def drive(ds, torch, kind, N, freq, start, shapes, presence, plans, seed, counte
                         shadow[j] += 1
                     else:
                         shadow[j] = 0
-                    if shadow[j] > N:
+                    if shadow[j] > Nof[j]:
                         tol_exceeded = True
                         break
                 counters["refreshes"] += 1
@@ -222,7 +241,7 @@ def drive(ds, torch, kind, N, freq, start, shapes, presence, plans, seed, counte
 
 
 def _new_counters():
-    return {k: 0 for k in ("evals", "refreshes", "injected_failures_delivered", "poison_returns_delivered", "pve_expected", "tolerance_raises_expected", "fallback_checked", "stored_checked", "wrapper_evaluations", "runs_with_mask_change")}
+    return {k: 0 for k in ("runs_with_group_override", "evals", "refreshes", "injected_failures_delivered", "poison_returns_delivered", "pve_expected", "tolerance_raises_expected", "fallback_checked", "stored_checked", "wrapper_evaluations", "runs_with_mask_change")}
 
 
 def run_case(case):
@@ -279,13 +298,17 @@ def run_case(case):
                     if rnd.random() < (pfail if not burst else (0.9 if (t // 3) % 2 else 0.05)):
                         pl_[(j, f)] = rnd.choice(["raise", "raise", "raise_arith", "raise_value", "raise_lin"])
             plans[t] = pl_
-        out = drive(ds, torch, kind, N, freq, start, shapes, presence, plans, case["seed"], counters, qr=qr)
+        group_N = None
+        if nb >= 2 and rnd.random() < 0.3:
+            group_N = [N, rnd.choice([x for x in (0, 1, 2, 3) if x != N])]  # second param group overrides preconditioner_config
+            counters["runs_with_group_override"] = 1
+        out = drive(ds, torch, kind, N, freq, start, shapes, presence, plans, case["seed"], counters, qr=qr, group_N=group_N)
         counters["evals"] += 1
         changes = sum(1 for a, b in zip(presence, presence[1:]) if a != b)
         counters["runs_with_mask_change"] += bool(changes)
         if counters["injected_failures_delivered"] and changes:
-            sigs.append(["rnd", kind, qr, N, freq, pk, nb, out])
-        return {"counters": counters, "sigs": sigs, "sample": {"family": "rnd", "kind": kind, "qr": qr, "N": N, "frequency": freq, "start": start, "shapes": shapes, "presence_kind": pk, "outcome": out, "plan_step0": {str(k): v for k, v in plans[0].items()}}}
+            sigs.append(["rnd", kind, qr, N, freq, pk, nb, out, group_N])
+        return {"counters": counters, "sigs": sigs, "sample": {"family": "rnd", "group_N": group_N, "kind": kind, "qr": qr, "N": N, "frequency": freq, "start": start, "shapes": shapes, "presence_kind": pk, "outcome": out, "plan_step0": {str(k): v for k, v in plans[0].items()}}}
 
     # poison family
     mode = rnd.choice(["grad_at_refresh", "grad_off_refresh", "routine_returns", "store_overflow"])
